@@ -152,6 +152,7 @@ theorem inv_allocate {s : State} (h : Inv s) (d : Data) : Inv (allocate s d).2 :
           | inl a => exact Or.inl a
           | inr a => exact Or.inr (List.mem_cons_of_mem _ a)
       · intro j hj; simp only [Array.size_setIfInBounds]; exact h.pendLt j hj
+      · exact h.noUaf
     · rename_i hfree
       have hrc : ∀ i, (s.refcounts.push 0).getD i 0 = s.rc i := by
         intro i; rw [getD_push]
@@ -190,6 +191,7 @@ theorem inv_allocate {s : State} (h : Inv s) (d : Data) : Inv (allocate s d).2 :
           | inl a => exact Or.inl a
           | inr a => exact Or.inr (List.mem_cons_of_mem _ a)
       · intro j hj; simp only [Array.size_push]; have := h.pendLt j hj; omega
+      · exact h.noUaf
 
 theorem stable_allocate {s : State} (h : Inv s) (d : Data) : Stable s (allocate s d).2 := by
   unfold allocate
